@@ -235,6 +235,14 @@ fn scale_date_literal(
     }
 }
 
+/// `10^scale` for a non-negative decimal scale, `None` for a negative scale (not
+/// handled here)
+fn pow10_of_scale(scale: i8) -> Option<i128> {
+    u32::try_from(scale)
+        .ok()
+        .and_then(|s| 10_i128.checked_pow(s))
+}
+
 /// Convert a numeric value from one numeric data type to another
 fn try_cast_numeric_literal(
     lit_value: &ScalarValue,
@@ -263,9 +271,10 @@ fn try_cast_numeric_literal(
         | DataType::Date32
         | DataType::Date64 => 1_i128,
         DataType::Timestamp(_, _) => 1_i128,
-        DataType::Decimal32(_, scale) => 10_i128.pow(*scale as u32),
-        DataType::Decimal64(_, scale) => 10_i128.pow(*scale as u32),
-        DataType::Decimal128(_, scale) => 10_i128.pow(*scale as u32),
+        // a negative scale (legal in Arrow) must not reach `pow(scale as u32)`
+        DataType::Decimal32(_, scale) => pow10_of_scale(*scale)?,
+        DataType::Decimal64(_, scale) => pow10_of_scale(*scale)?,
+        DataType::Decimal128(_, scale) => pow10_of_scale(*scale)?,
         _ => return None,
     };
     let (target_min, target_max) = match target_type {
@@ -322,7 +331,7 @@ fn try_cast_numeric_literal(
         ScalarValue::TimestampNanosecond(Some(v), _) => (*v as i128).checked_mul(mul),
         ScalarValue::Decimal32(Some(v), _, scale) => {
             let v = *v as i128;
-            let lit_scale_mul = 10_i128.pow(*scale as u32);
+            let lit_scale_mul = pow10_of_scale(*scale)?;
             if mul >= lit_scale_mul {
                 // Example:
                 // lit is decimal(123,3,2)
@@ -342,7 +351,7 @@ fn try_cast_numeric_literal(
         }
         ScalarValue::Decimal64(Some(v), _, scale) => {
             let v = *v as i128;
-            let lit_scale_mul = 10_i128.pow(*scale as u32);
+            let lit_scale_mul = pow10_of_scale(*scale)?;
             if mul >= lit_scale_mul {
                 // Example:
                 // lit is decimal(123,3,2)
@@ -361,7 +370,7 @@ fn try_cast_numeric_literal(
             }
         }
         ScalarValue::Decimal128(Some(v), _, scale) => {
-            let lit_scale_mul = 10_i128.pow(*scale as u32);
+            let lit_scale_mul = pow10_of_scale(*scale)?;
             if mul >= lit_scale_mul {
                 // Example:
                 // lit is decimal(123,3,2)
